@@ -114,7 +114,22 @@ type robs struct {
 	close  bool
 }
 
-func serveOnce(d desc, c cfgD, reduce bool, mode int) (ds []dobs, rs []robs, bad string) {
+// One Server per configuration for the whole run: RequestCtx, Request / header objects, bufio readers and writers
+// come out of the server's pools, so every connection after the first runs on REUSED objects (state a Reset forgot
+// would show up as a divergence from the model, which starts every connection from scratch).
+type srvKey struct {
+	reduce, nonorm, getonly, noprep bool
+	bsize, maxbody                  int
+}
+
+var servers = map[srvKey]*fasthttp.Server{}
+var sink *[]dobs
+
+func serverFor(d desc, c cfgD, reduce bool) *fasthttp.Server {
+	k := srvKey{reduce, c.NoNorm, c.GetOnly, c.NoPrep, d.BSize, d.MaxBody}
+	if s, ok := servers[k]; ok {
+		return s
+	}
 	s := &fasthttp.Server{
 		ReduceMemoryUsage:             reduce,
 		DisableHeaderNamesNormalizing: c.NoNorm,
@@ -133,8 +148,15 @@ func serveOnce(d desc, c cfgD, reduce bool, mode int) (ds []dobs, rs []robs, bad
 		} else {
 			o.body = append([]byte(nil), ctx.Request.Body()...)
 		}
-		ds = append(ds, o)
+		*sink = append(*sink, o)
 	}
+	servers[k] = s
+	return s
+}
+
+func serveOnce(d desc, c cfgD, reduce bool, mode int) (ds []dobs, rs []robs, bad string) {
+	s := serverFor(d, c, reduce)
+	sink = &ds
 	conn := &mconn{in: d.Stream, mode: mode, rnd: rand.New(rand.NewSource(d.Seed))}
 	if p := hlib.Protect(func() { s.ServeConn(conn) }); p != "" { //nolint:errcheck
 		return ds, nil, "panic: " + p
@@ -867,6 +889,72 @@ func corpus() []desc {
 					l = append(l, d)
 				}
 			}
+		}
+	}
+	// --- coverage audit additions ---
+	// Expect handling (serve loop: 100 Continue, then ContinueReadBody)
+	for i, st := range []string{
+		"POST /e HTTP/1.1\r\nHost: h\r\nExpect: 100-continue\r\nTransfer-Encoding: chunked\r\n\r\n3\r\nabc\r\n0\r\n\r\n" + get("/after"),
+		"POST /e HTTP/1.1\r\nHost: h\r\nExpect: 100-Continue\r\nContent-Length: 3\r\n\r\nabc" + get("/after"),
+		"POST /e HTTP/1.1\r\nHost: h\r\nexpect: 100-continue\r\nContent-Length: 3\r\n\r\nabc" + get("/after"),
+		"POST /e HTTP/1.1\r\nHost: h\r\nEXPECT: 100-continue\r\nContent-Length: 3\r\n\r\nabc" + get("/after"),
+		"POST /e HTTP/1.0\r\nConnection: keep-alive\r\nExpect: 100-continue\r\nContent-Length: 3\r\n\r\nabc" + get("/after"),
+		"GET /e HTTP/1.1\r\nHost: h\r\nExpect: 100-continue\r\n\r\n" + get("/after"),
+		"POST /e HTTP/1.1\r\nHost: h\r\nExpect: 100-continue\r\nContent-Length: 9\r\n\r\nabc",
+		"POST /e HTTP/1.1\r\nHost: h\r\nExpect: 100-continue\r\nTransfer-Encoding: chunked\r\n\r\n3\r\nabcXX0\r\n\r\n" + get("/after"),
+		"POST /e HTTP/1.1\r\nHost: h\r\nExpect: 100-continue\r\nExpect: other\r\nContent-Length: 3\r\n\r\nabc" + get("/after"),
+		"POST /e HTTP/1.1\r\nHost: h\r\nExpect: other\r\nExpect: 100-continue\r\nContent-Length: 3\r\n\r\nabc" + get("/after"),
+		"POST /e HTTP/1.1\r\nHost: h\r\nExpect: 100-continue\r\nContent-Length: 3\r\nTransfer-Encoding: chunked\r\n\r\n3\r\nabc\r\n0\r\n\r\n" + get("/after"),
+		"POST /e HTTP/1.1\r\nHost: h\r\nExpect: 100-continue\r\nContent-Type: multipart/form-data; boundary=xx\r\nContent-Length: 58\r\n\r\n--xx\r\nContent-Disposition: form-data; name=\"a\"\r\n\r\nv\r\n--xx--\r\n" + get("/after"),
+	} {
+		l = append(l, directed(st, "expect-"+strconv.Itoa(i)))
+	}
+	// methods that usually carry no body, sent with one (the framing is the same for every method)
+	for i, m := range []string{"GET", "HEAD", "DELETE", "OPTIONS", "TRACE", "CONNECT"} {
+		tgt := "/m"
+		if m == "CONNECT" {
+			tgt = "h:80"
+		}
+		l = append(l,
+			directed(m+" "+tgt+" HTTP/1.1\r\nHost: h\r\nContent-Length: 5\r\n\r\nhello"+get("/after"), "method-cl-"+strconv.Itoa(i)),
+			directed(m+" "+tgt+" HTTP/1.1\r\nHost: h\r\nTransfer-Encoding: chunked\r\n\r\n5\r\nhello\r\n0\r\n\r\n"+get("/after"), "method-te-"+strconv.Itoa(i)),
+			directed(m+" "+tgt+" HTTP/1.1\r\nHost: h\r\nContent-Length: 0\r\n\r\n"+get("/after"), "method-cl0-"+strconv.Itoa(i)))
+	}
+	// Host: duplicates, absolute-form targets
+	for i, h := range []string{
+		"Host: a\r\nHost: b\r\n", "Host: a\r\nHost: a\r\n", "Host: a\r\nhost: b\r\n", "Host: a\r\nX: y\r\nHOST: b\r\n", "Host:\r\n", "Host: a, b\r\n", "Host: a b\r\n",
+	} {
+		l = append(l, directed("GET /h HTTP/1.1\r\n"+h+"\r\n"+get("/after"), "host-"+strconv.Itoa(i)))
+	}
+	l = append(l,
+		directed("GET http://other/p HTTP/1.1\r\nHost: h\r\n\r\n"+get("/after"), "abs-uri-host"),
+		directed("GET http://other/p HTTP/1.1\r\n\r\n"+get("/after"), "abs-uri-nohost"),
+		directed("GET /h HTTP/1.0\r\nHost: a\r\nHost: b\r\nConnection: keep-alive\r\n\r\n"+get("/after"), "host-dup-http10"))
+	// ReadBufferSize boundaries: a head of exactly bsize-1 / bsize / bsize+1 bytes, heads and chunk lines that straddle
+	// the buffer end in a pipeline
+	for _, bs := range []int{64, 100} {
+		base := "GET /b HTTP/1.1\r\nHost: h\r\nX-P: \r\n\r\n"
+		for _, delta := range []int{-2, -1, 0, 1, 2} {
+			pad := bs + delta - len(base)
+			st := "GET /b HTTP/1.1\r\nHost: h\r\nX-P: " + strings.Repeat("p", pad) + "\r\n\r\n"
+			d := directed(st+get("/after"), fmt.Sprintf("bufedge-%d-%d", bs, delta))
+			d.BSize = bs
+			l = append(l, d)
+			// the same head as the SECOND request of a pipeline: it starts in the middle of the buffer
+			d2 := directed(get("/first")+st+get("/after"), fmt.Sprintf("bufedge2-%d-%d", bs, delta))
+			d2.BSize = bs
+			l = append(l, d2)
+		}
+		// chunk-size lines / chunk data / trailers crossing the buffer end
+		for i, padn := range []int{bs - 70, bs - 66, bs - 64, bs - 62, bs - 58} {
+			if padn < 0 {
+				padn += 40
+			}
+			st := "POST /c HTTP/1.1\r\nHost: h\r\nX: " + strings.Repeat("q", padn%30) + "\r\nTransfer-Encoding: chunked\r\n\r\n" +
+				"000000a;ext=1\r\n0123456789\r\n1e\r\n" + strings.Repeat("z", 30) + "\r\n0\r\nX-T: v\r\n\r\n"
+			d := directed(st+get("/after"), fmt.Sprintf("bufchunk-%d-%d", bs, i))
+			d.BSize = bs
+			l = append(l, d)
 		}
 	}
 	big := directed("POST /a HTTP/1.1\r\nHost: h\r\nContent-Length: 30\r\n\r\n"+strings.Repeat("b", 30)+get("/b"), "maxbody")
